@@ -62,6 +62,20 @@ Match(e, o) ==
          (* elements of a bag are exact replies (no nested wildcards) *)
          /\ o.t = "arr"
          /\ SameBag(e.v, o.v)
+    [] e.t = "multi" ->
+         /\ o.t = "multi"
+         /\ Len(o.v) = Len(e.v)
+         /\ \A i \in 1..Len(e.v) : Match(e.v[i], o.v[i])
+    [] e.t = "unsuball" ->
+         (* one frame <<kind, channel, remaining>> per channel, any channel order, counts decreasing *)
+         /\ o.t = "multi"
+         /\ Len(o.v) = Cardinality(e.chans)
+         /\ \A i \in 1..Len(o.v) :
+              /\ o.v[i].t = "arr" /\ Len(o.v[i].v) = 3
+              /\ o.v[i].v[1] = [t |-> "bulk", v |-> e.kind]
+              /\ o.v[i].v[2].t = "bulk" /\ o.v[i].v[2].v \in e.chans
+              /\ o.v[i].v[3] = [t |-> "int", v |-> IntBytes(e.base + Len(o.v) - i)]
+         /\ \A i, j \in 1..Len(o.v) : i # j => o.v[i].v[2] # o.v[j].v[2]
     [] e.t = "score" -> o.t = "bulk" /\ ReplyIsScore(o.v, e.s)
     [] e.t = "pick" ->
          /\ o.t = "arr"
